@@ -2,7 +2,7 @@ use std::collections::HashMap;
 use std::path;
 use std::result::Result;
 
-use tokio::io::{AsyncBufReadExt, AsyncReadExt};
+use tokio::io::AsyncReadExt;
 use tokio_stream::StreamExt;
 
 use crate::core::error::MonorailError;
@@ -137,6 +137,22 @@ pub(crate) async fn git_cmd_rev_parse(
     }
 }
 
+// Reads the NUL-terminated paths that git emits when given `-z`.
+async fn read_nul_terminated_paths<R>(reader: &mut R) -> Result<Vec<Change>, MonorailError>
+where
+    R: tokio::io::AsyncRead + Unpin,
+{
+    let mut data = Vec::new();
+    reader.read_to_end(&mut data).await?;
+    Ok(data
+        .split(|b| *b == 0)
+        .filter(|p| !p.is_empty())
+        .map(|p| Change {
+            name: String::from_utf8_lossy(p).into_owned(),
+        })
+        .collect())
+}
+
 pub(crate) async fn git_cmd_other_changes(
     git_path: &str,
     work_path: &path::Path,
@@ -144,16 +160,12 @@ pub(crate) async fn git_cmd_other_changes(
     let mut child = get_git_cmd_child(
         git_path,
         work_path,
-        &["ls-files", "--others", "--exclude-standard"],
+        &["ls-files", "--others", "--exclude-standard", "-z"],
     )
     .await?;
     let mut out = vec![];
-    if let Some(stdout) = child.stdout.take() {
-        let reader = tokio::io::BufReader::new(stdout);
-        let mut lines = reader.lines();
-        while let Some(line) = lines.next_line().await? {
-            out.push(Change { name: line });
-        }
+    if let Some(mut stdout) = child.stdout.take() {
+        out = read_nul_terminated_paths(&mut stdout).await?;
     }
     let mut stderr_string = String::new();
     if let Some(mut stderr) = child.stderr.take() {
@@ -181,7 +193,9 @@ pub(crate) async fn git_cmd_diff_changes(
     begin: Option<&str>,
     end: Option<&str>,
 ) -> Result<Vec<Change>, MonorailError> {
-    let mut args = vec!["diff", "--name-only", "--find-renames"];
+    // --no-renames: a moved file is reported as both its old and its new path.
+    // -z: paths are emitted verbatim and NUL-terminated, never quoted or escaped.
+    let mut args = vec!["diff", "--name-only", "--no-renames", "-z"];
     if let Some(begin) = begin {
         args.push(begin);
     }
@@ -190,12 +204,8 @@ pub(crate) async fn git_cmd_diff_changes(
     }
     let mut child = get_git_cmd_child(git_path, work_path, &args).await?;
     let mut out = vec![];
-    if let Some(stdout) = child.stdout.take() {
-        let reader = tokio::io::BufReader::new(stdout);
-        let mut lines = reader.lines();
-        while let Some(line) = lines.next_line().await? {
-            out.push(Change { name: line });
-        }
+    if let Some(mut stdout) = child.stdout.take() {
+        out = read_nul_terminated_paths(&mut stdout).await?;
     }
     let mut stderr_string = String::new();
     if let Some(mut stderr) = child.stderr.take() {
